@@ -25,7 +25,7 @@ REQUIRED = ["pe_total_match_raw", "pe_total_build_raw", "pe_total_credentials_re
             "credentials_required_of_descriptors", "build_reports_missing_credentials", "validate_rejects_without_complete_selection",
             "wallet_verifier_agree_partial", "wallet_verifier_disagree_witness",
             "old_code_max_zero_selects_all", "old_code_min_above_max_returns_partial",
-            "fact_regex_timeout_bounded", "fact_fulfill_callers_return_on_error", "fact_consumer_wiring", "fact_match_result_consumers", "fact_apply_max_test_first", "fact_apply_rejects_min_above_max",
+            "fact_apply_max_counts_taken_members", "fact_regex_timeout_bounded", "fact_fulfill_callers_return_on_error", "fact_consumer_wiring", "fact_match_result_consumers", "fact_apply_max_test_first", "fact_apply_rejects_min_above_max",
             "old_code_panics_array_pattern", "old_code_type_only_filter_matches_any_array",
             "old_code_panics_pick_min_only", "old_code_accepts_shadowed_entry",
             "fact_array_case_guarded", "fact_apply_derefs_guarded", "fact_apply_max_guarded",
@@ -424,6 +424,28 @@ def run(ctx):
                         counts["oracle-undecided"] += 1
                 # submission requirement bounds, judged where the count is unambiguous: one top-level `from` requirement,
                 # every group member listed once, candidates pairwise different credentials
+                if (len(pd["srs"]) == 1 and pd["srs"][0]["nested"] and pd["srs"][0]["rule"] == "pick" and "count" not in pd["srs"][0]
+                        and all(n["rule"] == "all" and n["from"] and not n["nested"] for n in pd["srs"][0]["nested"])
+                        and len({d["id"] for d in pd["descs"]}) == len(pd["descs"]) and all(len(d["group"]) == 1 for d in pd["descs"])):
+                    # pick min/max over nested `all from G_i` requirements with one descriptor per group: every selected member is one credential
+                    sr = pd["srs"][0]
+                    groups = [n["from"] for n in sr["nested"]]
+                    per_group = {g: [d for d in pd["descs"] if d["group"] == [g]] for g in groups}
+                    if len(set(groups)) == len(groups) and all(len(v) == 1 for v in per_group.values()):
+                        try:
+                            cand = [next((c for c in wallet if satisfies(pd, per_group[g][0], c, retbl)), None) for g in groups]
+                            avail = [c["name"] for c in cand if c is not None and not c["selEmpty"]]
+                            if len(set(avail)) == len(avail):
+                                nsel = len(vcs)
+                                if "min" in sr and nsel < sr["min"]:
+                                    report("C12:sr-rule-violated:nested-min", f"selection of {nsel} credential(s) violates min of the nested pick requirement {json.dumps({k: v for k, v in sr.items() if k != 'nested'})} ({len(avail)} members selectable)", i)
+                                if "max" in sr and nsel > sr["max"]:
+                                    report("C12:sr-rule-violated:nested-max", f"selection of {nsel} credential(s) violates max of the nested pick requirement", i)
+                                if nsel != (min(len(avail), sr["max"]) if "max" in sr else len(avail)):
+                                    report("C12:sr-rule-violated:nested-take", f"selected {nsel} of {len(avail)} selectable members for {json.dumps({k: v for k, v in sr.items() if k != 'nested'})}", i)
+                                counts["sr-bounds-checked-nested"] += 1
+                        except Undecided:
+                            counts["oracle-undecided"] += 1
                 if len(pd["srs"]) == 1 and not pd["srs"][0]["nested"] and pd["srs"][0]["from"] and len({d["id"] for d in pd["descs"]}) == len(pd["descs"]):
                     sr = pd["srs"][0]
                     try:
@@ -444,6 +466,8 @@ def run(ctx):
                                         shape = "max-0" if sr["max"] == 0 else "max"
                                     if "min" in sr and nsel < sr["min"]:
                                         shape = "min-greater-than-max" if "max" in sr and sr["max"] < sr["min"] else "min"
+                                    elif not shape and nsel != (min(len(avail), sr["max"]) if "max" in sr else len(avail)):
+                                        shape = "take"  # fewer members taken than selectable and allowed
                                 if shape:
                                     report("C12:sr-rule-violated:" + shape, f"selection of {nsel} credential(s) violates the submission requirement {json.dumps({k: v for k, v in sr.items() if k != 'nested'})}", i)
                                 counts["sr-bounds-checked"] += 1
@@ -544,7 +568,9 @@ def run(ctx):
                         if len(last_build[0].get("wallets", [])) == 1:
                             cw = [c["name"] if c else None for c in ref_candidates(pd, wallet, retbl)]
                             cs = [c["name"] if c else None for c in ref_candidates(pd, sel, retbl)]
-                            amb = cw != cs
+                            # the known limitation: re-matching the presented credentials picks a DIFFERENT credential for some
+                            # descriptor (a descriptor that merely loses its candidate because it was not selected is not that)
+                            amb = any(a and b and a != b for a, b in zip(cw, cs))
                         else:
                             amb = None
                         if amb:
@@ -750,7 +776,7 @@ def run(ctx):
                 wallet = [c["creds"][i] for i in op["wallets"][0]]
                 cw = [x["name"] if x else None for x in ref_candidates(pdx, wallet, rt)]
                 cs = [x["name"] if x else None for x in ref_candidates(pdx, sel, rt)]
-                if cw != cs:
+                if any(a and b and a != b for a, b in zip(cw, cs)):
                     creport("C12:wallet-verifier-disagree:credential-matches-several-descriptors",
                             f"verifier rejects the presenter's own submission ({r.get('validateErr','')[:50]}): re-matching the presented credentials selects differently", k)
                 else:
